@@ -162,7 +162,10 @@ func (c *copier) prepareTargetDir(srcFollowed, src, destPath string, copyDirCont
 		}
 	}
 
-	if (!copyDirContents && fiSrc.IsDir() && fiDest != nil) || (!fiSrc.IsDir() && fiDest != nil && fiDest.IsDir()) {
+	// the source lands inside destPath under its own name only when
+	// destPath is a directory; a directory source meeting a non-directory
+	// is the conflict copier.copy decides (error, or always-replace)
+	if (!copyDirContents && fiSrc.IsDir() && fiDest != nil && fiDest.IsDir()) || (!fiSrc.IsDir() && fiDest != nil && fiDest.IsDir()) {
 		base := filepath.Base(src)
 		if base == ".." {
 			// "a/.." names a directory, not an entry called ".." below
